@@ -77,6 +77,37 @@ def getpass (c : Config) (file : Bytes) : Option Bytes :=
   let d := file.take 1024
   if d.length = 0 then none else some (c.secretSeed ++ d)
 
+/-! ### interactive password entry (`getpass()` without `-stdin` and without a seed file, or with `-p`) -/
+
+/-- `sys.getline(buf)` on one chunk delivered by the terminal (one `os.Stdin.Read` into the 1024-byte buffer):
+    trailing bytes below ' ' (the line terminator, but also a trailing TAB) are dropped. A chunk longer than
+    1024 bytes is cut by the buffer (the rest stays in the terminal queue: not modelled, the harness keeps
+    its typed lines shorter). -/
+def readPassword (chunk : Bytes) : Bytes :=
+  ((chunk.take 1024).reverse.dropWhile (fun b => b.toNat < 32)).reverse
+
+/-- one interactive session: what is typed at the prompts and the switches that decide which prompts appear -/
+structure Typed where
+  first : Bytes      -- chunk read at "Enter your wallet's seed password: "
+  second : Bytes     -- chunk read at "Re-enter the seed password (to be sure): " (not asked with `-1`)
+  singleAsk : Bool   -- `-1`
+  genMode : Bool     -- `wallet_generation_mode()`: `-l`, `-xprv` or `-words`
+  ask4pass : Bool    -- `-p`: never offer to save
+  save : Bool        -- the answer to "Save the password on disk, so you won't be asked for it later?"
+  deriving Repr, DecidableEq
+
+inductive PassErr | empty | mismatch
+  deriving Repr, DecidableEq
+
+/-- `getpass()` when the password is typed. Result: the password handed to `make_wallet` (the `seed=` prefix
+    followed by what was typed) and, when the user had it saved, the bytes written to the seed file —
+    `pass[:n]`, the typed password WITHOUT the prefix, because the next run prepends the prefix again. -/
+def getpassTyped (c : Config) (t : Typed) : Except PassErr (Bytes × Option Bytes) :=
+  let p := readPassword t.first
+  if p.length = 0 then .error .empty
+  else if t.genMode ∧ !t.singleAsk ∧ readPassword t.second ≠ p then .error .mismatch
+  else .ok (c.secretSeed ++ p, if t.genMode ∧ !t.ask4pass ∧ t.save then some p else none)
+
 /-! ### hdpath parsing -/
 
 def isDigit (c : UInt8) : Bool := 48 ≤ c.toNat ∧ c.toNat ≤ 57
@@ -221,8 +252,9 @@ def liftHD {α} : Except Fail α → Except WErr α
   | .ok a => .ok a
   | .error e => .error (.hd e)
 
-/-- `make_wallet()` given the content of the seed file -/
-def makeWallet (C : WalletCrypto) (c : Config) (file : Bytes) : Except WErr Wallet := do
+/-- `make_wallet()` given the outcome `gp` of `getpass()` (`none`: "Error reading seed password"); the
+    password is asked for only after the configuration checks that precede it in the Go code -/
+def makeWalletG (C : WalletCrypto) (c : Config) (gp : Option Bytes) : Except WErr Wallet := do
   if c.waltype < 3 ∨ c.waltype > 4 then throw .waltype
   let path ← (if c.waltype = 4 then
       match parseHdPath c.hdpath with
@@ -231,7 +263,7 @@ def makeWallet (C : WalletCrypto) (c : Config) (file : Bytes) : Except WErr Wall
     else pure none)
   if c.bip39wrds ≠ 0 ∧ c.bip39wrds ≠ -1 ∧ (c.bip39wrds < 12 ∨ c.bip39wrds > 24 ∨ c.bip39wrds % 3 ≠ 0) then
     throw .bip39count
-  let pass0 ← match getpass c file with
+  let pass0 ← match gp with
     | none => (throw .emptySeed : Except WErr _)
     | some p => pure p
   let pass ← (if c.usescrypt ≠ 0 then
@@ -287,6 +319,14 @@ def makeWallet (C : WalletCrypto) (c : Config) (file : Bytes) : Except WErr Wall
     let recs ← liftHD ((ks0 ++ ks1).mapM (mkKeyRec C c))
     pure { mnemonic := mnemonic, rootX := some (HD.toString C root), leafX := some (HD.toString C hdwal),
            xtra := x2, keys := recs }
+
+/-- `make_wallet()` of a run that takes the password from the seed file (or `-stdin`) -/
+def makeWallet (C : WalletCrypto) (c : Config) (file : Bytes) : Except WErr Wallet :=
+  makeWalletG C c (getpass c file)
+
+/-- `make_wallet()` of a run in which the password is typed (any `getpass` error ends the run the same way) -/
+def makeWalletTyped (C : WalletCrypto) (c : Config) (t : Typed) : Except WErr Wallet :=
+  makeWalletG C c (match getpassTyped c t with | .ok (p, _) => some p | .error _ => none)
 
 /-! ### what the signer looks a key up by (hash_to_key_idx / public_xo_to_key_idx / address_to_key) -/
 
